@@ -164,7 +164,10 @@ def run(tier, seed):
                              seed, 720))
         for name in W.WORKBOOKS_OPAQUE:
             for src in ('NoData', 'Loaded'):
-                jobs.append((name, [2, 'a'], None, src, seed, 720))
+                # (all four inputs of cse_opq settable gives 8 x 10^5 transitions)
+                ins = sorted(W.WORKBOOKS_OPAQUE[name]['inputs'])
+                jobs.append((name, [2, 'a'], ins[:2] if src == 'NoData' else None, src,
+                             seed, 720))
         jobs.append(('chain_obs', [None, 2], None, 'NoData', seed, 0))
         jobs.append(('cse_obs', [None, 2, 'a'], None, 'Stored', seed, 0))
     results = parallel.run_jobs(job, jobs)
